@@ -572,6 +572,10 @@ def check_doc(ctx, case):
 def check_case(ctx, case):
     if case.get("kind") == "sphinx-doc":
         return check_doc_sphinx(ctx, case)
+    if case.get("kind") == "sphinx-project":
+        n = len(ctx.failures)
+        check_sphinx_fallthrough(ctx)
+        return len(ctx.failures) == n
     if case.get("kind") == "synthetic":
         return True     # registry-level states have no generator-known intent; covered by the correspondence
     if not case.get("links"):
